@@ -626,3 +626,176 @@ impl Prop for C16 {
         out
     }
 }
+
+// ------------------------------------------------------------------------------------------------
+// statically typed trees whose leaves (and whole subtrees) are zero-sized
+
+use shred::{System, Write as SWrite};
+use std::sync::atomic::AtomicU64;
+use std::sync::Mutex;
+
+static ZCLOCK: AtomicU64 = AtomicU64::new(1);
+/// (leaf, begin clock, end clock)
+static ZLOG: Mutex<Vec<(usize, u64, u64)>> = Mutex::new(Vec::new());
+
+/// unit-struct system number N: bumps `Slot<N>` and logs its window
+pub struct Z<const N: usize>;
+
+impl<'a, const N: usize> System<'a> for Z<N> {
+    type SystemData = SWrite<'a, crate::res::Slot<N>>;
+    fn run(&mut self, mut data: Self::SystemData) {
+        let b = ZCLOCK.fetch_add(1, SeqCst);
+        data.val += 1;
+        for _ in 0..200 {
+            std::hint::spin_loop();
+        }
+        drop(data);
+        let e = ZCLOCK.fetch_add(1, SeqCst);
+        ZLOG.lock().unwrap().push((N, b, e));
+    }
+}
+
+#[derive(Clone, Debug, Serialize, Deserialize)]
+pub struct C16StaticCase {
+    pub shape: u8,
+    pub threads: u8,
+    pub inside_pool: bool,
+    pub repeats: u8,
+}
+
+pub struct C16Static;
+
+fn run_static<T>(
+    tree: T,
+    leaves: &[usize],
+    seq_pairs: &[(usize, usize)],
+    case: &C16StaticCase,
+    lane: usize,
+) -> Result<(), Fail>
+where
+    T: for<'a> RunWithPool<'a> + Send,
+{
+    let threads = case.threads.clamp(1, 16) as usize;
+    let tp = pool(lane, threads);
+    let mut ps = ParSeq::new(tree, tp.clone());
+    let mut world = World::empty();
+    ps.setup(&mut world);
+    for &l in leaves {
+        if res::peek(&world, Res::new(l, 0)).is_none() {
+            return Err(Fail::new(format!("setup did not reach zero-sized leaf {}", l)));
+        }
+    }
+    for rep in 1..=case.repeats.max(1) as u64 {
+        ZLOG.lock().unwrap().clear();
+        let r = catch_unwind(AssertUnwindSafe(|| {
+            if case.inside_pool {
+                tp.install(|| ps.dispatch(&world))
+            } else {
+                ps.dispatch(&world)
+            }
+        }));
+        if let Err(p) = r {
+            return Err(Fail::new(format!("dispatch panicked: {}", panic_msg(&p))));
+        }
+        let log = ZLOG.lock().unwrap().clone();
+        for &l in leaves {
+            let v = res::peek(&world, Res::new(l, 0)).unwrap_or(u64::MAX);
+            if v != rep {
+                return Err(Fail::new(format!(
+                    "zero-sized leaf {} has run {} times after {} dispatches",
+                    l, v, rep
+                )));
+            }
+        }
+        for &(a, b) in seq_pairs {
+            let wa = log.iter().find(|x| x.0 == a);
+            let wb = log.iter().find(|x| x.0 == b);
+            if let (Some(wa), Some(wb)) = (wa, wb) {
+                if !(wa.2 < wb.1) {
+                    return Err(Fail::new(format!(
+                        "leaf {} (earlier child of a seq node) had not finished when leaf {} began",
+                        a, b
+                    )));
+                }
+            }
+        }
+    }
+    Ok(())
+}
+
+impl Prop for C16Static {
+    type Case = C16StaticCase;
+    fn name(&self) -> &'static str {
+        "c16-static-zst"
+    }
+    fn property(&self) -> &'static str {
+        "C16"
+    }
+    fn rule(&self) -> &'static str {
+        "statically typed trees written with the real par! / seq! macros whose leaves are unit-struct (zero-sized) systems, so that whole subtrees are zero-sized types: 8 fixed shapes (flat par, flat seq, par of seqs, seq of pars, par of pars, three-deep mixes) x pool size {1,2,3,4,8,16} x dispatch from outside / inside the pool x 1..3 dispatches; oracle: setup reaches every leaf, every leaf runs exactly once per dispatch, seq order holds; non-trivial = every case; distinct = case hash. Runs on one lane (the leaves log into a process-wide table)."
+    }
+    fn stream_len(&self) -> usize {
+        8
+    }
+    fn gen(&self, src: &mut Src) -> C16StaticCase {
+        C16StaticCase {
+            shape: src.pick(8) as u8,
+            threads: [1u8, 2, 3, 4, 8, 16][src.pick(6)],
+            inside_pool: src.chance(6, 16),
+            repeats: 1 + src.pick(3) as u8,
+        }
+    }
+    fn check(&self, case: &C16StaticCase, lane: usize, st: &mut Stats) -> Result<(), Fail> {
+        use shred::{par, seq};
+        st.class(&format!("shape_{}", case.shape));
+        let r = match case.shape % 8 {
+            0 => run_static(par![Z::<0>, Z::<1>, Z::<2>,], &[0, 1, 2], &[], case, lane),
+            1 => run_static(seq![Z::<0>, Z::<1>, Z::<2>,], &[0, 1, 2], &[(0, 1), (1, 2), (0, 2)], case, lane),
+            2 => run_static(
+                par![seq![Z::<0>, Z::<1>,], seq![Z::<2>, Z::<3>,], Z::<4>,],
+                &[0, 1, 2, 3, 4],
+                &[(0, 1), (2, 3)],
+                case,
+                lane,
+            ),
+            3 => run_static(
+                seq![par![Z::<0>, Z::<1>,], par![Z::<2>, Z::<3>,],],
+                &[0, 1, 2, 3],
+                &[(0, 2), (0, 3), (1, 2), (1, 3)],
+                case,
+                lane,
+            ),
+            4 => run_static(
+                par![par![Z::<0>, Z::<1>,], par![Z::<2>, Z::<3>,],],
+                &[0, 1, 2, 3],
+                &[],
+                case,
+                lane,
+            ),
+            5 => run_static(
+                par![Z::<0>, seq![Z::<1>, par![Z::<2>, Z::<3>,],], Z::<4>,],
+                &[0, 1, 2, 3, 4],
+                &[(1, 2), (1, 3)],
+                case,
+                lane,
+            ),
+            6 => run_static(
+                seq![Z::<0>, par![Z::<1>, seq![Z::<2>, Z::<3>,],], Z::<4>,],
+                &[0, 1, 2, 3, 4],
+                &[(0, 1), (0, 2), (2, 3), (1, 4), (3, 4)],
+                case,
+                lane,
+            ),
+            _ => run_static(
+                par![Z::<0>, Z::<1>, Z::<2>, Z::<3>, Z::<4>, Z::<5>, Z::<6>,],
+                &[0, 1, 2, 3, 4, 5, 6],
+                &[],
+                case,
+                lane,
+            ),
+        };
+        r?;
+        st.nontrivial(case, || json!({"shape": case.shape}));
+        Ok(())
+    }
+}
